@@ -32,6 +32,9 @@ EXPLANATION = ('Props/C01.v proves, for every n, that the model marginal cost of
                'CobbDouglas (numerically differentiated in the source) are modelled over the reals (Model/Trans.v): their closed-form '
                'gradients are proved to be the total derivatives, and the implementation is compared with them by interval arithmetic '
                'inside Coq (second correspondence). Non-integer exponents of IDevice: theorem over the reals, no executable instance.')
+TRUSTED_EXTRA = ['second correspondence (InformationEntropy/TemporalVariance/CobbDouglas): the Interval library\'s `interval` tactic '
+                 '(reflexive interval arithmetic over Flocq big-integer floats at 90 bits, checked by the kernel through vm_compute); the '
+                 'generated case files are evaluated by coqc and discarded; tolerances 1e-9 (cost) and 1e-6 (numdifftools derivatives)']
 CLASSES = lg.CLASSES
 
 
